@@ -225,7 +225,17 @@ def parseRowsOut (out : List String) : Option (List Row) :=
 
 def judge (toks : List String) (out : List String) : String :=
   match toks with
-  | "res" :: _ => "ok"
+  | "res" :: name :: rest =>
+    -- the oracle is `resolve`, which provably picks the first overload that fits (`Octo.C03.resolve_first_fit`)
+    match parseTy rest, lookupDescs name with
+    | some (t, _), some descs =>
+      let want := match resolve descs t with
+        | none => ["none"]
+        | some ch => toString ch.idx :: (ch.assertIds.getD []).map toString
+      if out == want then "ok"
+      else if out == ["panic"] then "bad go-panic"
+      else s!"bad overload-resolution got={String.intercalate "," out} want={String.intercalate "," want}"
+    | _, _ => "bad unparsable-op"
   | ["aggtable"] => "ok"
   | _ =>
   match parseGrp toks with
